@@ -80,6 +80,12 @@ CHECKS = {
               "[1e-4,100] on both sides of 1 s, labels over printable ASCII, every loader entry point and factor m; ~1k quick, ~80k thorough.",
         note=_NOTE + " 'Same to 6 / 4 decimals' is read literally (within half a unit of the last kept decimal).",
         technique="property-based testing (Hypothesis): save/load round-trip oracle with a rational model of the format's rounding"),
+    "C18": dict(
+        level="Generated search: rotation against a long-double reference and exact-rational angle grid, rotated-measure scans for named parameters and callables "
+              "(bitwise vs per-angle measures), lag matching on clusters of 2-4 lagged copies of a record with pairwise distinct samples (equal and unequal "
+              "lengths, any master, both lag signs, extreme lags), same-start alignment for any master / number of signals / section; ~2.7k quick, ~160k thorough.",
+        note=_NOTE,
+        technique="property-based testing (Hypothesis): reference-model and constructed-ground-truth (known lag) oracles"),
     "C19": dict(
         level="Generated search against a long-double loop reference of the shifted-wave definition (fractional / whole / half-sample delays, scalar and array "
               "reductions, all eight nodal x trim x start triples), cumulative-energy laws (bitwise for 2^k), batch-vs-single rows, and the integer shift helpers "
